@@ -46,20 +46,6 @@ structure Env where
   jr : Journal
   fx : Fixes
 
-/-- Is the transaction header "date [status] payee" with single blanks up to the payee? -/
-def payeeCanonical (e : Env) (h : Hit) : Bool :=
-  match e.jr.transactions.find? (fun tx => tx.date.range.start.line == h.rng.start.line) with
-  | none => false
-  | some tx =>
-    match e.raw[h.rng.start.line - 1]? with
-    | none => false
-    | some ln =>
-      let rest := ln.drop (tx.date.range.stop.col - 1)
-      let st : Txt := match tx.status with
-        | .none => [] | .cleared => ['*', ' '] | .pending => ['!', ' ']
-      tx.code == [] && tx.date2.isNone &&
-        (' ' :: (st ++ (String.fromUTF8! ⟨h.name.toArray⟩).toList)).isPrefixOf rest
-
 /-- The slice stands between two double quotes: it is the inside of a quoted lexeme, not the
     lexeme (a commodity range must include the quotes, at directive sites as at posting sites). -/
 def insideQuotes (e : Env) (r : NRange) : Bool :=
@@ -74,14 +60,10 @@ def insideQuotes (e : Env) (r : NRange) : Bool :=
     named by the tree, the position range the code started from).  `none` = passes;
     `some (id, why)` = fails, `id` the known finding whose guard names this shape ("" if none). -/
 def judgeCore (e : Env) (feature : String) (r : NRange) (h : Option Hit) : Option (String × String) := Id.run do
-  let rng := (h.map (·.rng)).getD Rng.zero
   let kind := (h.map (·.kind)).getD Kind.other
   let name := (h.map (·.name)).getD []
   if !rangeOK e.doc r then
-    let known :=
-      if kind == .payee && !payeeCanonical e h.get! then "payee-estimate"
-      else ""
-    return some (known, s!"{feature}: range {showR r} is not a well-formed range of the document")
+    return some ("", s!"{feature}: range {showR r} is not a well-formed range of the document")
   -- on target?
   let needs := match kind with
     | .transaction | .directive => false
@@ -105,7 +87,8 @@ def judgeCore (e : Env) (feature : String) (r : NRange) (h : Option Hit) : Optio
     return bad "" "a commodity"
   | .payee =>
     if sb == name then return none
-    return bad (if !payeeCanonical e h.get! then "payee-estimate" else "") "a payee"
+    -- no excuse: the payee's range is read off the header line (fix-payee-range.diff)
+    return bad "" "a payee"
   | .tag =>
     if sb == name then return none
     return bad "" "a tag name"
